@@ -200,6 +200,7 @@ def run(cfg):
     reserved_slot_rule(R, lib)
     selector_rule(R, zs)
     finder_rule(R, zs)
+    abbrev_rule(R, lib, zs)
     return R
 
 
@@ -359,6 +360,63 @@ def finder_rule(R, zs):
         R.violation('R6', 'CandidateFinderBasic~CandidateFinderOptimized', loc,
                     'policy %s (FROM, TO, month) with match [%s, %s): the basic finder leads to %s, the optimized finder to %s; %d of %d cases differ: '
                     'the result depends on the optimize_candidates option' % (list(pol), mt[0], mt[1], _fmt_sel(a), _fmt_sel(b), len(diffs), n))
+
+
+def abbrev_rule(R, lib, zs):
+    """For a FORMAT "STD/DST" both sides pick a half from the DST shift of the transition; the decision tables
+    (shift negative / zero / positive -> head or tail) must coincide.  Python: the `if` under `index >= 0` in
+    ZoneSpecifier._calc_abbrev; C++: the `if` on deltaMinutes in ExtendedZoneProcessor::createAbbreviation, whose
+    parameter is uint16_t (a negative shift arrives as a large positive number)."""
+    from .gnf import SymExec as _SX, eval_formula, arith_assign
+    R.rule('R7', 'the half of an "A/B" FORMAT is chosen from the DST shift by the same decision table on both sides', floor=2)
+    pf = zs.fn('ZoneSpecifier._calc_abbrev')
+    c = 'createAbbreviation~ZoneSpecifier._calc_abbrev:slash-half'
+    ptab = None
+    for n in ast.walk(pf.node):
+        if isinstance(n, ast.If) and isinstance(n.test, ast.Compare) and len(n.body) == 1 and len(n.orelse) == 1 \
+                and all(isinstance(b, ast.Assign) and isinstance(b.value, ast.Subscript) and isinstance(b.value.slice, ast.Slice) for b in (n.body[0], n.orelse[0])):
+            def is_head(a):
+                return a.value.slice.lower is None and a.value.slice.upper is not None
+            names = [x.id for x in ast.walk(n.test) if isinstance(x, ast.Name)]
+            if len(names) != 1:
+                continue
+            tab = {}
+            for v in (-3600, 0, 3600):
+                t = bool(eval(compile(ast.Expression(n.test), '<abbrev>', 'eval'), {}, {names[0]: v}))
+                tab[(v > 0) - (v < 0)] = 'head' if is_head(n.body[0] if t else n.orelse[0]) else 'tail'
+            ptab = tab
+    R.instance('R7', 'ZoneSpecifier._calc_abbrev:slash-half', pf.loc, 'table %r' % (ptab,))
+    cf = [f for f in lib.fns('ace_time::ExtendedZoneProcessor::createAbbreviation')][0]
+    ctab = None
+    dparam = cf.params[3][0]
+    for s in walk_stmts(cf.body):
+        if s.k == 'if' and any(x.k == 'var' and x.a[0] == dparam for x in walk_expr(s.a[0])):
+            def src_of(blk):
+                for t in walk_stmts(blk):
+                    for e in all_exprs([t]):
+                        if e.k == 'call' and e.a[0].split('::')[-1] in ('memcpy', 'strncpy', 'strcpy') and len(e.a[2]) >= 2:
+                            a = e.a[2][1]
+                            while a.k in ('cast', 'ptrcast'):
+                                a = a.a[-1]
+                            return 'head' if path_of(a) == cf.params[2][0] else 'tail'
+                return None
+            form = _SX(fold_global=lib.global_value).cond(s.a[0], {})
+            tab = {}
+            for sg, v in ((-1, 65536 - 60), (0, 0), (1, 60)):
+                t = eval_formula(form, arith_assign({dparam: v}))
+                tab[sg] = src_of(s.a[1] if t else s.a[2])
+            ctab = tab
+    R.instance('R7', 'ExtendedZoneProcessor::createAbbreviation:slash-half', cf.loc, 'table %r' % (ctab,))
+    if ptab is None or ctab is None or None in ctab.values():
+        R.violation('R7', c, cf.loc if ctab is None else pf.loc, 'the half selection was not recognised on the %s side' % ('C++' if ctab is None or None in (ctab or {}).values() else 'Python'))
+        return
+    want = {-1: 'tail', 0: 'head', 1: 'tail'}
+    if ptab != ctab:
+        sg = [k for k in (-1, 0, 1) if ptab[k] != ctab[k]][0]
+        R.violation('R7', c, pf.loc, 'for a %s DST shift the Python reference takes the %s of "STD/DST" and the C++ processor the %s: the abbreviation differs '
+                    'while offsets agree (e.g. Europe/Dublin in winter, SAVE -1:00)' % ({-1: 'negative', 0: 'zero', 1: 'positive'}[sg], ptab[sg], ctab[sg]))
+    elif ptab != want:
+        R.violation('R7', c, pf.loc, 'both sides use the table %r; zic names a transition with any non-zero SAVE by the second half: expected %r' % (ptab, want))
 
 
 def _fmt_sel(x):
@@ -839,6 +897,13 @@ SELFTEST = [
     dict(id='python-expand-drops-delta', file='tools/zonedb/zone_specifier.py', find='            ss = dtu.ss + delta_seconds + offset_seconds', replace='            ss = dtu.ss + offset_seconds', rule='R1', construct='expandDateTuple'),
     dict(id='cpp-match-upper-bound-not-clipped', file='src/ace_time/ExtendedZoneProcessor.h',
          find='      if (upperBound < untilDate) {\n        untilDate = upperBound;\n      }', replace='', rule='R1', construct='createMatch'),
+    dict(id='python-abbrev-half-nonpositive', file='tools/zonedb/zone_specifier.py', find='                if delta_seconds == 0:\n                    abbrev = format[:index]',
+         replace='                if delta_seconds <= 0:\n                    abbrev = format[:index]', rule='R7'),
+    dict(id='cpp-abbrev-half-positive-only', file='src/ace_time/ExtendedZoneProcessor.h', find='          if (deltaMinutes == 0) {\n            uint8_t headLength',
+         replace='          if (deltaMinutes == 0 || deltaMinutes > 32767) {\n            uint8_t headLength', rule='R7'),
+    dict(id='python-abbrev-branches-swapped-silent', file='tools/zonedb/zone_specifier.py',
+         find='                if delta_seconds == 0:\n                    abbrev = format[:index]\n                else:\n                    abbrev = format[index + 1:]',
+         replace='                if delta_seconds != 0:\n                    abbrev = format[index + 1:]\n                else:\n                    abbrev = format[:index]', expect='silent'),
     dict(id='python-lookup-wrong-field', file='tools/zonedb/zone_specifier.py', find='            start_time = transition.startDateTime', replace='            start_time = transition.transitionTime', rule='R1-loop'),
     dict(id='python-lookup-stops-on-equal', file='tools/zonedb/zone_specifier.py', find='            if start_time > dt_time:\n                break', replace='            if start_time >= dt_time:\n                break', rule='R1-loop'),
     dict(id='cpp-normalise-only-whole-days', file='src/ace_time/ExtendedZoneProcessor.h', find='      while (dt->minutes < 0) {', replace='      while (dt->minutes <= -kOneDayAsMinutes) {', rule='R2'),
